@@ -94,6 +94,14 @@ CLAIMED = {
             note="Trusted: Coq kernel, translator (boolean fragment over mode codes, fails closed), extraction+driver, harness. The loop model is an abstraction of _results for the on/on and off/on modes; SafeLearner (C15), OpeRewards, BatchSafe/Unbatch and Finalize are used as they are; "
                  "dr/dm need vowpalwabbit and are outside the property; a missing logged probability counts as 1 (by the code's own design).",
             technique="Coq proof over translator-generated mode flags (finite sweep) + recording-learner oracle", design="§5 C06"),
+ "C19": dict(text="Coq theorems (C19/Props.v) over an interleaving model of ConcurrentCacher: for ANY number of callers, ANY lists of get_set/rmv operations on equal or colliding keys, ANY schedule (lists of caller ids, at the granularity of the atomic lock "
+                  "blocks, getter steps and inner-cache operations) and getters that fail, the counter invariant (arr=-1 iff one writer and no reader; arr=r>=0 iff r readers and no writer; an entry is Writing iff exactly one getter runs) is inductive and so holds in every "
+                  "reachable state; corollaries: no partial read, writers exclusive, all locks released when everybody has finished, no deadlock (some caller can always make a non-spinning step), single flight, a failed getter leaves no entry. "
+                  "A deterministic scheduler (injected lock object and shared array, patched sleep, pausing getters) drives the real class through random and - in the thorough tier - exhaustive schedules which are replayed in the extracted model; "
+                  "a monitor in the instrumented inner cache checks the property on the implementation; real DiskCacher files are cut at every byte.",
+            note="Trusted: Coq kernel, extraction+driver, the scheduler harness (threads + Condition). One slot of the lock table is modelled (all keys collide - the hard case); processes are represented by threads; termination under fairness is argued from no_deadlock, not proved; "
+                 "nested get_set on colliding keys is excluded by the property; the inner cache follows MemoryCacher's visibility (an entry being written is not yet contained).",
+            technique="Coq proof (inductive invariant over interleavings) + scheduled co-simulation with the extracted model + runtime monitor", design="§5 C19"),
 }
 NA_REASON = "check not built yet in this revision (planned, see DESIGN.md §8); no claim is made"
 def main():
